@@ -152,7 +152,10 @@ Definition get_request_uri_path (m : msg) : M (list string) :=
 Inductive result :=
 | RDone | RNoAddr | RExn (e : exn)
 | RHandled (id : Z) (seen : list string) (orig : option (list string)) (uri : M (list string))
-| RLinks (links : list link) (payload : string).
+| RLinks (links : list link) (payload : string)
+| RDefault                                            (* needs_blockwise_assembly: True without asking anyone / add_observation: nothing happened *)
+| RWkcLeaf                                            (* the WKC resource was asked *)
+| RProbe (hits : list (string * option (option Z))).  (* per listed href: Some (Some id) handler, Some None the WKC resource, None 4.04 *)
 
 (* where a request ends up *)
 Inductive leaf := LeafRes (r : res) (m : msg) | LeafOpaque (id : Z) (m : msg) | LeafExn (e : exn).
@@ -175,6 +178,22 @@ Fixpoint render (pipe : bool) (n : node) (m : msg) {struct n} : leaf :=
         | Raise KeyError => LeafExn NotFound
         | Raise e => LeafExn e
         end
+      end
+  end.
+
+(* Site.needs_blockwise_assembly (resource.py:359-365) and Site.add_observation (resource.py:415-426): the same skeleton as
+   render — look the child up with the same function; on KeyError answer the default (True / nothing), else ask the child with
+   the stripped request.  [locate] is that skeleton; LeafExn KeyError stands for the except-KeyError branch. *)
+Fixpoint locate (n : node) (m : msg) {struct n} : leaf :=
+  match n with
+  | NOpaque id => LeafOpaque id m
+  | NSite rs ss =>
+      let ss' := (fix mp (l : dict node) : dict (msg -> leaf) :=
+                    match l with [] => [] | (k, c) :: tl => (k, locate c) :: mp tl end) ss in
+      match find_child_and_pathstripped_message {| resources := rs; subsites := ss' |} m with
+      | Ok (ChildResource r, m') => LeafRes r m'
+      | Ok (ChildSubsite f, m') => f m'
+      | Raise e => LeafExn e
       end
   end.
 
@@ -231,7 +250,46 @@ Inductive op :=
 | OAdd (addr : list (list string)) (p : list string) (t : thing)
 | ORemove (addr : list (list string)) (p : list string)
 | ORequest (pipe : bool) (m : msg) (query : option string)
-| OList (addr : list (list string)).
+| OList (addr : list (list string))
+| OLocate (observe : bool) (m : msg)                  (* root.needs_blockwise_assembly(m) / root.add_observation(m, obs) *)
+| OAlias (src dst : list (list string)) (p : list string)   (* site_at(dst).add_resource(p, site_at(src)): the same Site object at a second place;
+                                                         a copy in this value model — faithful as long as the shared site is not mutated afterwards *)
+| OProbe.                                             (* list the root and request every listed href *)
+
+Definition located (observe : bool) (root : node) (m : msg) : result :=
+  match locate root m with
+  | LeafExn KeyError => RDefault
+  | LeafExn e => RExn e
+  | LeafOpaque id m' => handled id m'
+  | LeafRes (RHandler id _) m' => handled id m'
+  | LeafRes (RWkc _) _ => if observe then RDefault (* no add_observation on WKCResource: AttributeError swallowed *) else RWkcLeaf
+  end.
+(* the request path a listed href stands for: "/" is the empty path, otherwise the segments after the leading slash *)
+Fixpoint split_slash_acc (acc : string) (s : string) : list string :=
+  match s with
+  | EmptyString => [acc]
+  | String c r => if Ascii.eqb c "/"%char then acc :: split_slash_acc "" r else split_slash_acc (acc ++ String c "") r
+  end.
+Definition path_of_href (h : string) : option (list string) :=
+  match h with
+  | String c r => if Ascii.eqb c "/"%char then Some (match r with EmptyString => [] | _ => split_slash_acc "" r end) else None
+  | EmptyString => None
+  end.
+Definition probe_one (root : node) (p : list string) : option (option Z) :=
+  match render false root ({| uri_path := p; uri_path_abbrev := None; original_request_path := None |}) with
+  | LeafRes (RHandler id _) _ => Some (Some id)
+  | LeafOpaque id _ => Some (Some id)
+  | LeafRes (RWkc _) _ => Some None
+  | LeafExn _ => None
+  end.
+Fixpoint probe_links (root : node) (ls : list link) : list (string * option (option Z)) :=
+  match ls with
+  | [] => []
+  | l :: r => match path_of_href (fst l) with
+              | Some p => (fst l, probe_one root p) :: probe_links root r
+              | None => probe_links root r
+              end
+  end.
 
 Definition apply_update (root : node) (u : option (M node)) : node * result :=
   match u with
@@ -251,6 +309,16 @@ Definition step (root : node) (o : op) : node * result :=
                                      | None => RNoAddr
                                      end
                          end)
+  | OLocate observe m => (root, located observe root m)
+  | OAlias src dst p =>
+      match site_at src root with
+      | None => (root, RNoAddr)
+      | Some c => apply_update root (update_at dst (fun s => add_resource s p (ChildSubsite c)) root)
+      end
+  | OProbe => (root, match get_resources_as_linkheader root with
+                     | Some ls => RProbe (probe_links root ls)
+                     | None => RNoAddr
+                     end)
   end.
 Fixpoint run (root : node) (ops : list op) : node * list result :=
   match ops with
